@@ -15,6 +15,16 @@ def main():
     lang, sw, seeds, kind, out = sys.argv[1], json.loads(sys.argv[2]), json.loads(sys.argv[3]), sys.argv[4], sys.argv[5]
     genlib.setup(lang, dis_use=sw["disUse"], dis_contra=sw["disContra"], no_bounds=sw["noBounds"], no_param_fn=sw["noParamFn"])
     import pser
+    import hlib
+    from src.ir import type_utils as tu
+    last = {}
+    real_fit = tu.find_irrelevant_type
+
+    def spy(etype, types, factory):
+        r = real_fit(etype, types, factory)
+        last.update(old=etype, new=r)
+        return r
+    tu.find_irrelevant_type = spy      # what the mutation asked to replace, and by what (to compare with what it actually replaced)
     swn = "".join("1" if sw[k] else "0" for k in ("disUse", "disContra", "noBounds", "noParamFn"))
 
     def abstract(p, pid, mode):
@@ -38,11 +48,12 @@ def main():
                     ab, aa = abstract(b, base + "/" + tag + "/before", "declared" if tag == "erase1" else "inference"), abstract(a, base + "/" + tag + "/after", "inference")
                     cases.append({"id": base + "/" + tag, "kind": "erase", "transformed": bool(t.is_transformed), "injected": "",
                                   "before": {k: ab[k] for k in ("ct", "g", "ev")}, "after": {k: aa[k] for k in ("ct", "g", "ev")},
-                                  "text_before": "", "text_after": "", "msg_old": "", "msg_new": "", "msg_node": []})
+                                  "text_before": "", "text_after": "", "msg_old": "", "msg_new": "", "msg_node": [], "rep_old": [], "rep_new": []})
                     progs += [ab, aa]
             else:
                 for k, (b, tagb) in enumerate(((p, "generated"), (e1, "erased"))):
                     for rep in range(2):
+                        last.clear()
                         try:
                             w, tw = genlib.overwrite(b, seed + 10 * k + rep)
                         except Exception:  # noqa: BLE001
@@ -59,7 +70,9 @@ def main():
                         cases.append({"id": "%s/ow_%s_%d" % (base, tagb, rep), "kind": "overwrite", "transformed": bool(tw.is_transformed), "injected": inj,
                                       "before": {x: ab[x] for x in ("ct", "g", "ev")}, "after": {x: aa[x] for x in ("ct", "g", "ev")},
                                       "text_before": dig(genlib.translate(b)), "text_after": dig(genlib.translate(w)),
-                                      "msg_old": mo, "msg_new": mn, "msg_node": node})
+                                      "msg_old": mo, "msg_new": mn, "msg_node": node,
+                                      "rep_old": [hlib.ser(last["old"])] if inj and last.get("old") is not None else [],
+                                      "rep_new": [hlib.ser(last["new"])] if inj and last.get("new") is not None else []})
                         progs += [ab, aa]
         return cases, progs
     cases, progs = genlib.in_big_stack(work)
